@@ -14,7 +14,7 @@ from refs import ctlcodec
 class Sub(object):
     """one submitted command"""
     __slots__ = ('idx', 'kind', 'name', 'line', 'rec', 'cb_args', 'on_result', 'on_line',
-                 'submitted_seq', 'result_seq', 'raised')
+                 'submitted_seq', 'result_seq', 'raised', 'bare_d')
 
     def __init__(self, idx, kind, name, line):
         self.idx = idx
@@ -28,10 +28,11 @@ class Sub(object):
         self.submitted_seq = None
         self.result_seq = None
         self.raised = None
+        self.bare_d = None
 
 
 class Ctl(object):
-    def __init__(self, world, live_connection_made=False, password_function=None):
+    def __init__(self, world, live_connection_made=False, password_function=None, early_watch=0):
         self.world = world
         self.proto = TorControlProtocol(password_function)
         if not live_connection_made:
@@ -40,10 +41,19 @@ class Ctl(object):
         self.subs = []
         self.watchers = []
         self.log = []
+        # requests to be told about disconnection made before the transport is attached (connectProtocol(ep, proto) pattern)
+        self.early = [self.watch() for _ in range(early_watch)]
         self.wire.attach(self.proto)
 
     # -- submissions ---------------------------------------------------------
-    def submit(self, kind, name=None):
+    def attach_callbacks(self):
+        """callbacks for submissions made with bare=True are attached only now"""
+        for s in self.subs:
+            if s.rec is None and getattr(s, 'bare_d', None) is not None:
+                s.rec = DRec(s.bare_d, s.name)
+                s.bare_d = None
+
+    def submit(self, kind, name=None, bare=False):
         """kind: 'P' plain queue_command, 'K' queue_command with per-line callback,
         'I' get_info_incremental, 'B' plain queue_command given non-ASCII bytes"""
         idx = len(self.subs)
@@ -90,6 +100,10 @@ class Ctl(object):
                 for h in hooks:
                     h()
             return x
+        if bare and s.raised is None:
+            # the caller only keeps the Deferred for now (callbacks come later: attach_callbacks())
+            s.bare_d = d
+            return s
         d.addBoth(fired)
         s.rec = DRec(d, name)
         return s
